@@ -279,6 +279,18 @@ fn c17(c: &Case) {
                     if (det(&fi.r) - 1.0).abs() > 1e-7 { bad.push("not a proper rotation".into()); } }
             }
         }
+        "collinear_source" | "collinear_target" if c.vo("line_o").is_none() => {
+            // probes without a solver model: exactly collinear triples (axis-aligned, so exact in f64 too) opposite a triangle that passes the 5 mm distance test
+            let thin = [Point3::new(0.0, 0.0, 0.0), Point3::new(1.0, 0.0, 0.0), Point3::new(0.5, 0.03, 0.0)];
+            for (k, line) in [[Point3::new(0.2, 0.1, 0.3), Point3::new(1.2, 0.1, 0.3), Point3::new(0.7, 0.1, 0.3)],
+                              [Point3::new(-0.4, 2.0, 0.0), Point3::new(-0.4, 2.0, 1.0), Point3::new(-0.4, 2.0, 0.5)]].iter().enumerate() {
+                let r = if clause == "collinear_source" { Frame::frame(line[0], line[1], line[2], thin[0], thin[1], thin[2]) } else { Frame::frame(thin[0], thin[1], thin[2], line[0], line[1], line[2]) };
+                match r {
+                    Ok(f) => bad.push(format!("probe {}: exactly collinear {} points accepted (frame translation {:?})", k, if clause == "collinear_source" { "source" } else { "target" }, f.translation.vector)),
+                    Err(e) => { let msg = format!("{}", e); if clause == "collinear_source" && !msg.contains("source") { bad.push(format!("collinear source reported as: {}", msg)); } }
+                }
+            }
+        }
         "collinear_source" | "collinear_target" => {
             let o = c.v("line_o"); let d = c.v("line_d"); let (a, b) = (c.f("a"), c.f("b")); let g = c.v("other");
             let l1 = [o[0], o[1], o[2]]; let l2 = [o[0] + a * d[0], o[1] + a * d[1], o[2] + a * d[2]]; let l3 = [o[0] + b * d[0], o[1] + b * d[1], o[2] + b * d[2]];
